@@ -383,7 +383,7 @@ def check_targets(o):
 
 
 # ===================================================================== generator + spec oracle
-TYPE_POOL = ["Foo", "Bar", "Baz", "Qux", "Abc", "Xyz"]
+TYPE_POOL = ["Foo", "Bar", "Baz", "Qux", "Abc", "Xyz", "Ee", "Aa", "Msg", "Hdr"]
 FIELD_POOL = ["aa", "bb", "cc", "dd", "ee", "ff", "foo", "bar", "baz", "qux"]
 VALUE_POOL = ["AA", "BB", "CC", "FOO", "BAR"]
 PRELUDE_TYPES = ["UInt", "Int", "Flag", "Bcd", "Float"]
@@ -846,9 +846,25 @@ class Gen:
                         f.name = "emboss_reserved_anonymous_field_#%d" % k
 
     def type_ref_string(self, ctx_ty, want=None):
-        """A dotted type name as a user might write it from inside ctx_ty."""
+        """A dotted type name as a user might write it from inside ctx_ty; unless a wrong
+        reference is wanted, one that the scoping rules accept (a few attempts)."""
+        if self.r.random() < self.bad:
+            self.f("tref_unchecked")
+            return self.type_ref_string1(ctx_ty, want)
+        orc = Oracle(self.mods, PRELUDE_TYPES)
+        for _ in range(6):
+            names = self.type_ref_string1(ctx_ty, want)
+            if orc.resolve_name(ctx_ty, names)[0] == "ok":
+                return names
+        self.f("tref_gave_up")
+        return names
+
+    def type_ref_string1(self, ctx_ty, want=None):
         r = self.r
-        cands = [t for t in self.all_types() if t.anon is None and (want is None or t.kind in want)]
+        here = [m for m in self.mods if m.file == ctx_ty.file][0]
+        reach = set([ctx_ty.file] + [tm.file for (_a, tm, _l, _c) in here.imports])
+        cands = [t for t in self.all_types() if t.anon is None and (want is None or t.kind in want)
+                 and (t.file in reach or r.random() < self.bad)]
         x = r.random()
         if not cands or x < self.bad:
             self.f("tref_random")
@@ -870,27 +886,43 @@ class Gen:
         """Writes an integer-ish expression; records the references in it."""
         r = self.r
         x = r.random()
-        if x < 0.35 or (not earlier and x < 0.6):
+        if x < 0.35 or (not earlier and not ctx_ty.params and r.random() > self.bad):
             e.w(str(r.randint(0, 9)))
             return
         if x < 0.5:
             enums = [t for t in self.all_types() if t.kind == "enum"]
             if enums:
-                t = r.choice(enums)
-                names = self.qualify(t, ctx_ty) + [r.choice(VALUE_POOL) if r.random() < self.bad else r.choice([v.name for v in t.values])]
+                orc = Oracle(self.mods, PRELUDE_TYPES)
+                for _ in range(6):
+                    t = r.choice(enums)
+                    names = self.qualify(t, ctx_ty) + [r.choice(VALUE_POOL) if r.random() < self.bad else r.choice([v.name for v in t.values])]
+                    if r.random() < self.bad or orc.resolve_name(ctx_ty, names, attr_field)[0] == "ok":
+                        break
                 self.f("enum_value_ref")
                 self.use_name(e, names, ctx_ty, attr_field)
                 return
         if x < 0.58:
             # static reference Type.field / Type.$size (constant-reference with snake tail)
-            ts = [t for t in self.all_types() if t.kind in ("struct", "bits") and t.anon is None]
+            chain = []
+            c = ctx_ty
+            while isinstance(c, TNode):
+                chain.append(c)
+                c = c.parent
+            # (not the enclosing types: a field that depends on its own structure is a cycle)
+            ts = [t for t in self.all_types() if t.kind in ("struct", "bits") and t.anon is None
+                  and t not in chain]
             if ts:
-                t = r.choice(ts)
-                tail = r.choice([f.name for f in t.fields if f.kind != "anonfield"] +
-                                ([f.abbr for f in t.fields if f.abbr] if r.random() < 0.3 else []) +
-                                ["$size_in_%s" % ("bytes" if t.kind == "struct" else "bits")])
+                orc = Oracle(self.mods, PRELUDE_TYPES)
+                for _ in range(6):
+                    t = r.choice(ts)
+                    tail = r.choice([f.name for f in t.fields if f.kind != "anonfield"] +
+                                    ([f.abbr for f in t.fields if f.abbr] if r.random() < 0.3 else []) +
+                                    ["$size_in_%s" % ("bytes" if t.kind == "struct" else "bits")])
+                    names = self.qualify(t, ctx_ty) + [tail]
+                    if r.random() < self.bad or orc.resolve_name(ctx_ty, names, attr_field)[0] in ("ok", "abbr-outside"):
+                        break
                 self.f("static_member_ref")
-                self.use_name(e, self.qualify(t, ctx_ty) + [tail], ctx_ty, attr_field)
+                self.use_name(e, names, ctx_ty, attr_field)
                 return
         # field path
         names = self.path_string(ctx_ty, earlier)
@@ -911,8 +943,10 @@ class Gen:
         scope_fields = [f for f in orc.fields_of(ctx_ty) if f.kind != "anonfield"]
         names = []
         x = r.random()
-        pool = [f for f in scope_fields if f.name in earlier] or scope_fields
-        if x < self.bad or not pool:
+        pool = [f for f in scope_fields if f.name in earlier]
+        if not pool and ctx_ty.params and x >= self.bad:
+            x = 0.1
+        if x < self.bad or (not pool and not ctx_ty.params):
             names.append(r.choice(FIELD_POOL + ["imp"]))
         elif x < 0.15 and ctx_ty.params:
             names.append(r.choice(ctx_ty.params).name)
@@ -987,7 +1021,12 @@ class Gen:
         enums = [x for x in self.all_types() if x.kind == "enum"]
         if enums and r.random() < 0.3:
             self.f("enum_param")
-            self.use_name(e, self.qualify(r.choice(enums), t), t)
+            orc = Oracle(self.mods, PRELUDE_TYPES)
+            for _ in range(6):
+                names = self.qualify(r.choice(enums), t)
+                if r.random() < self.bad or orc.resolve_name(t, names)[0] == "ok":
+                    break
+            self.use_name(e, names, t)
         else:
             self.use_name(e, ["UInt"], t)
             e.w(":8")
@@ -1120,7 +1159,7 @@ class Gen:
 
 def gen_case(r, size):
     """Returns dict(files, uses, oracle, feat)."""
-    g = Gen(r, collide=r.choice([0.0, 0.0, 0.01, 0.03, 0.1]), max_depth=r.choice([1, 2, 3, 3]),
+    g = Gen(r, collide=r.choice([0.0, 0.0, 0.0, 0.01, 0.04]), max_depth=r.choice([1, 2, 3, 3]),
             bad=r.choice([0.0, 0.0, 0.01, 0.03, 0.08]))
     imports = []
     if r.random() < 0.45:
